@@ -126,6 +126,9 @@ func (r *Ref) Apply(ei int) string {
 			// header-carried links count when the carrying block is connected for the first time
 			if e.Kind == EvBlockSL && b == e.Block && first {
 				for _, v := range e.Signers {
+					if e.Slot > 0 && e.Slot-1 != r.W.ValidatorOrder(e.Block, v) {
+						continue // a signature in a slot that is not the signer's never counts
+					}
 					r.admit(v, e.Src, e.Block, e.BadSig)
 				}
 			}
